@@ -72,14 +72,14 @@ type Config struct {
 	// FirstWins: sorting.FirstWriteWins as the log's ordering (a custom SortFn that does not put the largest
 	// clock first). Only used by checks whose oracle does not depend on what the linearisation looks like.
 	FirstWins bool
-	PC      int   // default pointer count for appends
+	PC        int // default pointer count for appends
 	// StartClock[i] > 0 creates replica i with a Lamport clock already at that time.
 	StartClock []int
 	IO         func() iface.IO // codec per world (nil: default)
 	// IOFor / SortFor, when set, give replica i its own codec / ordering (mixed configurations)
 	IOFor   func(i int) iface.IO
 	SortFor func(i int) iface.EntrySortFn
-	AC         func(replica int) accesscontroller.Interface
+	AC      func(replica int) accesscontroller.Interface
 }
 
 // SortFnOrNil exposes the configured ordering (nil = library default).
